@@ -37,52 +37,82 @@ def insertSortedNat (x : Nat × String) : List (Nat × String) → List (Nat × 
   | [] => [x]
   | y :: ys => if x.1 < y.1 then x :: y :: ys else y :: insertSortedNat x ys
 
+def envOf (rest : List String) : Env :=
+  let layout := parseMeta (kvOf rest "meta")
+  let terr := kvOf rest "terr" == "1"
+  let perr := kvOf rest "perr"
+  let lq : List (String × Option Nat) :=
+    let v := kvOf rest "lq"
+    if v == "-" then [] else (v.splitOn ",").filterMap fun x =>
+      match x.splitOn ":" with
+      | [tp, l] => some (tp, if l == "-" then none else parseNat? l)
+      | _ => none
+  let bf : List Nat := let v := kvOf rest "bf"; if v == "-" then [] else (v.splitOn ",").filterMap parseNat?
+  let pe : List String := let v := kvOf rest "pe"; if v == "-" then [] else v.splitOn ","
+  let base : Int := (parseInt? (kvOf rest "off")).getD 0
+  let leaderRefresh (t : String) (p : Int) : Option Nat :=
+    match layout.find? (·.1 == t) with
+    | some (_, ps) => match ps.find? (·.1 == p) with
+      | some (_, l) => l
+      | none => none
+    | none => none
+  { topics := if terr then none else some (layout.map (·.1)),
+    partitions := fun t => if perr == t then none else
+      match layout.find? (·.1 == t) with
+      | some (_, ps) => some (ps.map (·.1))
+      | none => some [],
+    leaderRefresh,
+    leaderRequest := fun t p =>
+      match lq.reverse.find? (·.1 == s!"{t}.{p}") with
+      | some (_, l) => l
+      | none => leaderRefresh t p,
+    answer := fun b reqs =>
+      if bf.contains b then none else
+      some (reqs.map fun (t, p) =>
+        (t, p, if pe.contains s!"{t}.{p}" then none else some (base * 1000 + 10 * topicIndex t + p))) }
+
+def showCycle (s' : CState) (out : CycleOut) : String :=
+  let asked := (out.asked.foldl (fun acc (b, l) =>
+    insertSortedNat (b, s!"{b}:" ++ "+".intercalate (sortS (l.map fun (t, p) => s!"{t}.{p}"))) acc) []).map (·.2)
+  let updates := sortS (out.updates.map fun (t, p, o, c) => s!"{t}.{p}.{o}.{c}")
+  s!"refresh={if out.refreshed then 1 else 0} deletes={joinOr "," (sortS out.deletes)} asked={joinOr ";" asked} updates={joinOr "," updates} fm={if s'.fetchMetadata then 1 else 0}"
+
+/-- `!` = the call failed / a nil reply; `-` = an empty listing -/
+def groupsOf (v : String) : Option (List String) :=
+  if v == "!" then none else if v == "-" then some [] else some (v.splitOn ",")
+
+def showLoopOut (s' : CState) : LoopOut → String
+  | .cycled o => showCycle s' o
+  | .flagged => "ok"
+  | .reaped a d => s!"asked={if a then 1 else 0} del={joinOr "," d}"
+
 def step (st : St) (args : List String) : St × String :=
   match args with
   | ["init"] => (some CState.init, "ok")
+  | ["loop"] => (st, if st.isSome then "ok" else "bad-op")
+  | ["stop"] => (st, if st.isSome then "stopped" else "bad-op")
   | "cycle" :: rest =>
     match st with
     | none => (st, "bad-op")
     | some s =>
-      let layout := parseMeta (kvOf rest "meta")
-      let terr := kvOf rest "terr" == "1"
-      let perr := kvOf rest "perr"
-      let lq : List (String × Option Nat) :=
-        let v := kvOf rest "lq"
-        if v == "-" then [] else (v.splitOn ",").filterMap fun x =>
-          match x.splitOn ":" with
-          | [tp, l] => some (tp, if l == "-" then none else parseNat? l)
-          | _ => none
-      let bf : List Nat := let v := kvOf rest "bf"; if v == "-" then [] else (v.splitOn ",").filterMap parseNat?
-      let pe : List String := let v := kvOf rest "pe"; if v == "-" then [] else v.splitOn ","
-      let base : Int := (parseInt? (kvOf rest "off")).getD 0
-      let leaderRefresh (t : String) (p : Int) : Option Nat :=
-        match layout.find? (·.1 == t) with
-        | some (_, ps) => match ps.find? (·.1 == p) with
-          | some (_, l) => l
-          | none => none
-        | none => none
-      let env : Env := {
-        topics := if terr then none else some (layout.map (·.1)),
-        partitions := fun t => if perr == t then none else
-          match layout.find? (·.1 == t) with
-          | some (_, ps) => some (ps.map (·.1))
-          | none => some [],
-        leaderRefresh,
-        leaderRequest := fun t p =>
-          match lq.reverse.find? (·.1 == s!"{t}.{p}") with
-          | some (_, l) => l
-          | none => leaderRefresh t p,
-        answer := fun b reqs =>
-          if bf.contains b then none else
-          some (reqs.map fun (t, p) =>
-            (t, p, if pe.contains s!"{t}.{p}" then none else some (base * 1000 + 10 * topicIndex t + p))) }
+      let env := envOf rest
       let s := if kvOf rest "tick" == "1" then { s with fetchMetadata := true } else s
       let (s', out) := cycle s env
-      let asked := (out.asked.foldl (fun acc (b, l) =>
-        insertSortedNat (b, s!"{b}:" ++ "+".intercalate (sortS (l.map fun (t, p) => s!"{t}.{p}"))) acc) []).map (·.2)
-      let updates := sortS (out.updates.map fun (t, p, o, c) => s!"{t}.{p}.{o}.{c}")
-      (some s', s!"refresh={if out.refreshed then 1 else 0} deletes={joinOr "," (sortS out.deletes)} asked={joinOr ";" asked} updates={joinOr "," updates} fm={if s'.fetchMetadata then 1 else 0}")
+      (some s', showCycle s' out)
+  | "tick" :: kind :: rest =>
+    match st with
+    | none => (st, "bad-op")
+    | some s =>
+      let t? : Option Tick := match kind with
+        | "offset" => some (.offset (envOf rest))
+        | "meta" => some .metadata
+        | "reap" => some (.reaper (groupsOf (kvOf rest "kg")) (groupsOf (kvOf rest "sg")))
+        | _ => none
+      match t? with
+      | none => (st, "bad-op")
+      | some t =>
+        let (s', o) := loopStep "c0" s t
+        (some s', showLoopOut s' o)
   | _ => (st, "bad-op")
 
 end Driver.ClusterD
